@@ -112,6 +112,42 @@ def maths_product(run):
                           f"inverse.matrix - 1 = {np.abs(prod-eye).max()}",
                           {})
         run.seen('maths', dim)
+        # whole-array shortcuts: every pattern of off-diagonal components
+        # that vanish identically over the whole array (a guard such as
+        # `not np.any(xy)` can only fire on such an input), both argument
+        # styles; the result must be the restriction of the full result
+        offd = [c for c, (i, j) in enumerate(idx) if i != j]
+        for r in range(1, len(offd) + 1):
+            for Z in itertools.combinations(offd, r):
+                sel = np.all(grid[list(Z)] == 0, axis=0)
+                sub = [comps[c][sel].copy() for c in range(ncomp)]
+                Ms = fmt([x.copy() for x in sub])
+                n_eval += int(sel.sum())
+                for arg, name in ((Ms, 'array'), (sub, 'list')):
+                    with warnings.catch_warnings():
+                        warnings.simplefilter('ignore')
+                        try:
+                            Is = np.asarray(inv(arg))
+                            ds = np.asarray(det(arg))
+                        except Exception as ex:     # noqa: BLE001
+                            run.violation(
+                                f"C08:inverse{dim}:pattern-raised",
+                                f"components {Z} identically zero, {name} "
+                                f"argument: {ex!r}",
+                                {'fn': f'inverse{dim}', 'zero': list(Z)})
+                            continue
+                    if not (Is.shape == Iv[..., sel].shape
+                            and np.array_equal(Is, Iv[..., sel])
+                            and np.array_equal(ds, d_ref[sel].astype(float))):
+                        run.violation(
+                            f"C08:inverse{dim}:zero-pattern",
+                            f"array whose components {[idx[c] for c in Z]} "
+                            f"vanish identically ({name} argument): inverse/"
+                            "determinant differ from the same matrices "
+                            "embedded in a general array",
+                            {'fn': f'inverse{dim}', 'zero': list(Z),
+                             'style': name})
+                run.seen('maths-pattern', dim, Z)
     # symmetrise / antisymmetrise: all basis tensors of a (3,3) and (4,4)
     for dim in (3, 4):
         for i, j in itertools.product(range(dim), repeat=2):
@@ -416,6 +452,90 @@ def _core_identities(task):
             'checks': ncheck[0], 'points': n}
 
 
+def int_dtype_case(task):
+    """'all ... dtypes': integer-valued inputs typed int64 give, for every
+    description key, the values the same inputs typed float64 give (a result
+    array allocated with the dtype of an input truncates silently)."""
+    try:
+        return _int_dtype_case(task)
+    except Exception:      # noqa: BLE001
+        import traceback
+        return {'bad': [('raised', traceback.format_exc()[-400:])],
+                'keys': 0, 'points': 0}
+
+
+def _int_dtype_case(task):
+    from aurel.core import AurelCore, descriptions
+    from aurel.finitedifference import FiniteDifference
+    alphas = (1, 2, 3)
+    betas = list(itertools.product((-1, 0, 2), repeat=3))
+    G = [np.diag([1, 2, 3]), np.array([[2, 1, 0], [1, 2, 0], [0, 0, 1]]),
+         np.array([[4, -1, 2], [-1, 3, 0], [2, 0, 5]]), np.eye(3, dtype=int),
+         np.array([[3, 0, 0], [0, 2, 1], [0, 1, 2]])]
+    Ks = [np.zeros((3, 3), int), np.eye(3, dtype=int),
+          np.array([[1, 2, -1], [2, -4, 3], [-1, 3, 2]])]
+    pts = list(itertools.product(range(3), range(27), range(5), range(3)))
+    n = len(pts)
+    shape = (n // 9, 3, 3)
+    a = np.array([alphas[p[0]] for p in pts]).reshape(shape)
+    b = np.array([betas[p[1]] for p in pts]).T.reshape((3,) + shape)
+    g = np.moveaxis(np.array([G[p[2]] for p in pts]), 0, -1).reshape(
+        (3, 3) + shape)
+    K = np.moveaxis(np.array([Ks[p[3]] for p in pts]), 0, -1).reshape(
+        (3, 3) + shape)
+    param = {'Nx': shape[0], 'Ny': 3, 'Nz': 3, 'xmin': 0., 'ymin': 0.,
+             'zmin': 0., 'dx': 1., 'dy': 1., 'dz': 1.}
+
+    def mk(dt):
+        with quiet():
+            fd = FiniteDifference(param, boundary='periodic', fd_order=2,
+                                  verbose=False)
+            rel = AurelCore(fd, verbose=False,
+                            clear_cache_every_nbr_calc=10 ** 9)
+        rel.data.update({'alpha': a.astype(dt), 'betaup3': b.astype(dt),
+                         'gammadown3': g.astype(dt),
+                         'Kdown3': K.astype(dt)})
+        rel.freeze_data()
+        return rel
+
+    def flat(v):
+        if isinstance(v, dict):
+            return [x for k in sorted(v, key=str) for x in flat(v[k])]
+        if isinstance(v, (list, tuple)):
+            return [x for y in v for x in flat(y)]
+        return [np.asarray(v)]
+    ri, rf = mk(np.int64), mk(np.float64)
+    bad = []
+    nk = 0
+    for k in descriptions:
+        try:
+            with quiet():
+                vf = flat(rf[k])
+        except Exception:      # noqa: BLE001 - judged by other checks
+            continue
+        try:
+            with quiet():
+                vi = flat(ri[k])
+        except Exception as ex:      # noqa: BLE001
+            bad.append(('int-typed-inputs:raised', k, repr(ex)[:120]))
+            continue
+        nk += 1
+        for x, y in zip(vi, vf):
+            if x.shape != y.shape or len(vi) != len(vf):
+                bad.append(('int-typed-inputs', k, 'shape'))
+                break
+            if x.size == 0:
+                continue
+            fin = np.isfinite(y)
+            d = np.abs(np.where(fin, x, 0).astype(complex)
+                       - np.where(fin, y, 0).astype(complex))
+            if not np.array_equal(np.isfinite(x), fin) or \
+                    np.any(d > 1e-10 * (1 + np.abs(np.where(fin, y, 0)))):
+                bad.append(('int-typed-inputs', k, float(d.max())))
+                break
+    return {'bad': bad, 'keys': nk, 'points': n}
+
+
 def curvature_symmetry_case(task):
     try:
         return _curvature_symmetry_case(task)
@@ -584,6 +704,13 @@ def main(tier):
             run.violation(f"C08:identity:{b[0]}:{r['task'][0]}",
                           f"{r['task']}: {b}"[:400],
                           {'task': r['task'], 'identity': b[0]})
+    for r in runner.pmap(int_dtype_case, [0], workers=1):
+        n2 += r['keys'] * r['points']
+        run.count('int_dtype_keys', r['keys'])
+        for b in r['bad']:
+            run.violation(f"C08:{b[0]}:{b[1]}",
+                          f"integer-valued inputs typed int64 vs float64: "
+                          f"{b}"[:400], {'int_dtype': 1, 'key': b[1]})
     ctasks = [(ia, ib, ig, ik, fl) for ia in range(3) for ib in range(3)
               for ig in range(4) for ik in range(1, 4) for fl in (False, True)]
     for t, r in zip(ctasks, runner.pmap(curvature_symmetry_case, ctasks,
@@ -622,6 +749,9 @@ def replay(rec):
     run = runner.Run(PID, 'quick', 'exploration')
     maths_product(run)
     safe_division_cases(run)
+    bad = []
     for t in [(np.float64, 'line')]:
-        print(core_identities(t)['bad'][:5])
-    return 1 if run.violations else 0
+        bad += core_identities(t)['bad'][:5]
+    bad += int_dtype_case(0)['bad'][:5]
+    print(bad)
+    return 1 if (run.violations or bad) else 0
